@@ -14,6 +14,10 @@ class TableUnit(Unit):
         return corpus.corpus_table(ctx.tier, ctx.seed)
     def gen(self, ctx, prog):
         return spec_table.gen(prog)
+    def kani_module(self, ctx, prog):
+        return spec_table.kani_module(prog)[0]
+    def kani_harnesses(self, ctx, prog):
+        return spec_table.kani_module(prog)[1] if ctx.tier == 'thorough' else []
     def verus_text(self, ctx, prog, pre, asm, lemmas):
         # the table struct must be declared before the `slot` view
         return '\n'.join([prog.aux_verus, '#[derive(Clone, Copy)]', prog.verus_enum(), asm.text, pre, lemmas])
